@@ -327,3 +327,6 @@ prefix("C01", "D19-prefix-randomize-end", E, "31624ea", "R-ACCEPT", "ersatz.rand
 prefix("C01", "D20-prefix-insert-end", E, "a9f9bb1", "R-ACCEPT", "ersatz.insert")
 case("C01", "sub-rejects-zero", "VIOLATION", [(E, SUB_GUARD, SUB_GUARD.replace("start < 0 or ", "start <= 0 or "))], "R-ACCEPT", "ersatz.substitute")
 case("C01", "del-rejects-full-tail", "VIOLATION", [(E, DEL_G, "\tif end < 0 or end >= X.shape[-1] or end <= start:")], "R-ACCEPT", "ersatz.delete")
+case("C01", "sub-rejects-full-length-motif", "VIOLATION", [(E, "\tif motif.shape[-1] > X.shape[-1]:\n\t\traise ValueError(\"Motif cannot be longer than sequence.\")", "\tif motif.shape[-1] >= X.shape[-1]:\n\t\traise ValueError(\"Motif cannot be longer than sequence.\")")], "R-ACCEPT", "ersatz.substitute")
+case("C01", "multi-rejects-zero-spacing", "VIOLATION", [(E, "if l < 0 or l >= X.shape[-1]:", "if l <= 0 or l >= X.shape[-1]:")], "R-ACCEPT", "ersatz.multisubstitute")
+case("C01", "rand-n-plus-one", "VIOLATION", [(E, "\tX_rands = []\n\tfor i in range(n):\n\t\tsubstitute_ohe", "\tX_rands = []\n\tfor i in range(n + 1):\n\t\tsubstitute_ohe")], "R-AXES", "ersatz.randomize")
